@@ -222,17 +222,39 @@ def run(facts, rep, ctx):
             rep.ok(rule, key, b.loc(gbb), 'l > r: flag cleared, loop left, symbol not counted; else matched += 1')
             # ---- classification
             key2 = 'backward_search|classification'
-            gm = eng_gd.edges_where(b, lambda c: c == ('Lt', '0', b.local_name(mlen) or ''))
-            gm = [x for x in gm if x[0] not in body]
-            okc = False
-            if len(gm) == 1:
-                mb, pos_t, _c2, zero_t = gm[0]
-                cb, ps_, ab = aggs['Complete'][0], aggs['Partial'][0], aggs['Absent'][0]
-                fl = [g for g in eng_gd.guards(b) if g['bb'] not in body and strip(g['expr']) == ('local', flag, b.local_name(flag))]
-                if len(fl) == 1 and b.edge_dominates((mb, pos_t), cb) and b.edge_dominates((mb, pos_t), ps_) and \
-                        b.edge_dominates((mb, zero_t), ab) and b.edge_dominates((fl[0]['bb'], fl[0]['t']), cb) and \
-                        b.edge_dominates((fl[0]['bb'], fl[0]['f']), ps_):
-                    okc = True
+            mn = b.local_name(mlen) or ''
+            POS = {('Lt', '0', mn), ('Le', '1', mn), ('Ne', '0', mn), ('Ne', mn, '0')}
+            ZERO = {('Eq', '0', mn), ('Eq', mn, '0'), ('Lt', mn, '1'), ('Le', mn, '0')}
+
+            def facts_at(target):
+                """what the guards after the loop establish on every path to `target`"""
+                out = set()
+                for g in eng_gd.guards(b):
+                    if g['bb'] in body:
+                        continue
+                    for c, tgt in ((g['cmp_true'], g['t']), (g['cmp_false'], g['f'])):
+                        if c is not None and b.edge_dominates((g['bb'], tgt), target):
+                            if c in POS:
+                                out.add('matched>0')
+                            elif c in ZERO:
+                                out.add('matched=0')
+                    e0 = strip(g['expr'])
+                    neg = False
+                    while isinstance(e0, tuple) and e0[0] == 'un' and e0[1] == 'Not':
+                        neg = not neg
+                        e0 = strip(e0[2])
+                    if e0 == ('local', flag, b.local_name(flag)):
+                        te, fe = (g['f'], g['t']) if neg else (g['t'], g['f'])
+                        if b.edge_dominates((g['bb'], te), target):
+                            out.add('complete')
+                        if b.edge_dominates((g['bb'], fe), target):
+                            out.add('incomplete')
+                return out
+            cb, ps_, ab = aggs['Complete'][0], aggs['Partial'][0], aggs['Absent'][0]
+            fc, fp, fa = facts_at(cb), facts_at(ps_), facts_at(ab)
+            okc = {'matched>0', 'complete'} <= fc and {'matched>0', 'incomplete'} <= fp and 'matched=0' in fa and \
+                not ({'matched=0', 'incomplete'} & fc) and not ({'matched=0', 'complete'} & fp) and 'matched>0' not in fa
+            gm = [(cb,)]
             if okc:
                 rep.ok(rule, key2, b.loc(gm[0][0]), 'matched > 0 & complete -> Complete; matched > 0 & !complete -> Partial; else Absent')
             else:
